@@ -123,7 +123,7 @@ pub fn run(out: &mut Out, thorough: bool, seed: u64, _extra: &[String]) {
                 let tm = Modulus::new(t);
                 for st in steps {
                     let g = tool.get_elt_from_step(st);
-                    let mut res = vec![0u64; n]; tool.apply(p.data(), g, &tm, &mut res);
+                    let mut res = vec![0xDEAD_BEEF_0BAD_F00Du64; n]; tool.apply(p.data(), g, &tm, &mut res);
                     let mut pr = Plaintext::new(); pr.resize(n); pr.data_mut().copy_from_slice(&res);
                     let d = enc.decode_new(&pr);
                     let want = if st == 0 { swap_rows(&v) } else { rot_rows(&v, st) };
@@ -187,7 +187,7 @@ fn high_degree(out: &mut Out, r: &mut Rng, kmax: usize, thorough: bool) {
             let mut steps: Vec<isize> = vec![0, 1, -1, row as isize - 1, -(row as isize) + 1]; for _ in 0..3 { steps.push(r.range(1, 2 * row as u64 - 2) as isize - row as isize + 1); }
             for st in steps {
                 let g = tool.get_elt_from_step(st);
-                let mut res = vec![0u64; n]; tool.apply(p.data(), g, &tm, &mut res);
+                let mut res = vec![0xDEAD_BEEF_0BAD_F00Du64; n]; tool.apply(p.data(), g, &tm, &mut res);
                 let mut pr = Plaintext::new(); pr.resize(n); pr.data_mut().copy_from_slice(&res);
                 let want = if st == 0 { swap_rows(&v) } else { rot_rows(&v, st) };
                 if enc.decode_new(&pr) != want { out.raw(&format!("!FAIL batch_high galois_slots {} {} step={} :: automorphism of step does not rotate rows left by step (0 = row swap) # {}", k, t, st, cls)); ok = false; break; }
